@@ -97,6 +97,7 @@ structure St where
   invalid : Bool                                  -- self.call_invalid_rules
   cache   : Array (List (Nat × Res))              -- per position: (rule id ↦ result stored)
   fetched : Nat                                   -- number of tokens fetched so far (for diagnose())
+  fired   : List (Nat × Nat)                      -- (rule, alternative index) whose action ran, most recent first
   assumed : Bool                                  -- a `mayRaise` action was taken to be truthy
   resets  : Nat                                   -- cost counters (C18)
   peeks   : Nat
@@ -132,6 +133,20 @@ def leaf (test : RTok → Bool) (s : St) : Res × St :=
       else (.fail s1.pos, s1)
   | (none, s1) => (.tokErr, s1)
 
+/-- entering a standard-shape method: `*_without_invalid` rules clear the flag; rules that use LOCATIONS
+    peek at the first token (`_lnum, _col = self._tokenizer.peek().start`) -/
+def bodyEntry (wo usesLoc : Bool) (s : St) : Option St :=
+  let sA := if wo then { s with invalid := false } else s
+  if usesLoc then
+    match peekTok w sA with
+    | (some _, sB) => some sB
+    | (none, _) => none
+  else some sA
+
+/-- leaving it: the flag is restored before every `return` (not when an exception propagates) -/
+def bodyExit (wo prev : Bool) (res : Res) (s1 : St) : St :=
+  if res.isAbort || !wo then s1 else { s1 with invalid := prev }
+
 mutual
 
 /-- Call a primitive. -/
@@ -160,7 +175,7 @@ def execRule : Nat → Nat → St → Res × St
     | none => (.undecided, s)
     | some r =>
       match r.deco with
-      | .none | .logger => execBody fuel r.body s
+      | .none | .logger => execBody fuel id r.body s
       | .memo =>
         let mark := s.pos
         match cacheGet s.cache mark id with
@@ -168,7 +183,7 @@ def execRule : Nat → Nat → St → Res × St
         | some (.fail e) => (.fail e, s.reset e)
         | some other => (other, s)
         | none =>
-          let (res, s1) := execBody fuel r.body s
+          let (res, s1) := execBody fuel id r.body s
           if res.isAbort then (res, s1)
           else
             -- endmark = self._mark() after the call, stored even for a failure
@@ -190,7 +205,7 @@ def grow : Nat → Nat → Body → Nat → Option Nat → Nat → St → Res ×
   | 0, _, _, _, _, _, s => (.outOfFuel, s)
   | fuel + 1, id, body, mark, last, lastmark, s =>
     let s1 := s.reset mark
-    let (res, s2) := execBody fuel body s1
+    let (res, s2) := execBody fuel id body s1
     if res.isAbort then (res, s2)
     else
       let endmark := s2.pos
@@ -213,23 +228,17 @@ where
       (.fail mark, { s2 with cache := cachePut s2.cache mark id (.fail mark) })
 
 /-- A method body. -/
-def execBody : Nat → Body → St → Res × St
-  | 0, _, s => (.outOfFuel, s)
-  | fuel + 1, b, s =>
+def execBody : Nat → Nat → Body → St → Res × St
+  | 0, _, _, s => (.outOfFuel, s)
+  | fuel + 1, rid, b, s =>
     match b with
     | .unmodelled => (.undecided, s)
     | .seqAlts ps => execSeqAlts fuel ps s.pos s
     | .alts as wo usesLoc =>
-      let prev := s.invalid
-      let sA := if wo then { s with invalid := false } else s
-      -- `_lnum, _col = self._tokenizer.peek().start` fetches the token at the rule's start
-      let (tk, sB) := if usesLoc then peekTok w sA else (some default, sA)
-      match tk with
-      | none => (.tokErr, sB)
-      | some _ =>
-        let (res, s1) := execAlts fuel as sB.pos sB
-        -- the flag is restored before every `return` (not when an exception propagates)
-        if res.isAbort || !wo then (res, s1) else (res, { s1 with invalid := prev })
+      match bodyEntry w wo usesLoc s with
+      | none => (.tokErr, s)
+      | some sB =>
+        ((execAlts fuel rid 0 as sB.pos sB).1, bodyExit wo s.invalid (execAlts fuel rid 0 as sB.pos sB).1 (execAlts fuel rid 0 as sB.pos sB).2)
 
 /-- `seq_alts(*alts)`. -/
 def execSeqAlts : Nat → List Prim → Nat → St → Res × St
@@ -243,14 +252,15 @@ def execSeqAlts : Nat → List Prim → Nat → St → Res × St
       | _ => execSeqAlts fuel ps mark (s1.reset mark)
 
 /-- The alternatives of a standard-shape method, in order. -/
-def execAlts : Nat → List Alt → Nat → St → Res × St
-  | 0, _, _, s => (.outOfFuel, s)
-  | _ + 1, [], mark, s => (.fail mark, s)
-  | fuel + 1, a :: as, mark, s =>
-    let (ok, cut, res, s1, oks) := execItems fuel a.items false [] s
-    if res.isAbort then (res, s1)
+def execAlts : Nat → Nat → Nat → List Alt → Nat → St → Res × St
+  | 0, _, _, _, _, s => (.outOfFuel, s)
+  | _ + 1, _, _, [], mark, s => (.fail mark, s)
+  | fuel + 1, rid, idx, a :: as, mark, s =>
+    let (ok, cut, res, s0, oks) := execItems fuel a.items false [] s
+    if res.isAbort then (res, s0)
     else if ok then
-      -- all conjuncts truthy: `return <action>`
+      -- all conjuncts truthy: the action runs, `return <action>`
+      let s1 := { s0 with fired := (rid, idx) :: s0.fired }
       match a.act with
       | .truthy => (.ok s1.pos, s1)
       | .none => (.fail s1.pos, s1)
@@ -259,8 +269,8 @@ def execAlts : Nat → List Alt → Nat → St → Res × St
       | .viaItem i => if (oks.reverse[i]?).getD false then (.ok s1.pos, s1) else (.fail s1.pos, s1)
       | .unknown => (.undecided, s1)
     else
-      let s2 := s1.reset mark
-      if cut then (.fail mark, s2) else execAlts fuel as mark s2
+      let s2 := s0.reset mark
+      if cut then (.fail mark, s2) else execAlts fuel rid (idx + 1) as mark s2
 
 /-- The conjuncts of an `if`: returns (all truthy?, cut flag, abort result or dummy, state, and for every
     conjunct evaluated so far whether its CALL succeeded, most recent first). -/
@@ -345,7 +355,7 @@ end
 
 /-- Initial state for a token list. -/
 def St.init (n : Nat) (invalid : Bool) : St :=
-  { pos := 0, invalid := invalid, cache := Array.replicate (n + 1) [], fetched := 0, assumed := false, resets := 0, peeks := 0, nexts := 0 }
+  { pos := 0, invalid := invalid, cache := Array.replicate (n + 1) [], fetched := 0, fired := [], assumed := false, resets := 0, peeks := 0, nexts := 0 }
 
 /-- Outcome of `Parser.parse(rule)` at the recogniser level. -/
 inductive Outcome where
